@@ -16,6 +16,7 @@ def dispatch (line : String) : String :=
   match l.splitOn " " with
   | "step" :: _ => handleStep (l.drop 5).toString
   | "wholerunx" :: _ => handleWholeRunX (l.drop 10).toString
+  | "wholeruns" :: _ => handleWholeRunS (l.drop 10).toString
   | "wholerun" :: _ => handleWholeRun (l.drop 9).toString
   | "paperseq" :: _ => handlePaperSeq (l.drop 9).toString
   | "session" :: _ => handleSession (l.drop 8).toString
